@@ -673,6 +673,261 @@ func c18RunGenerated(c *vcommon.Case) {
 	}
 }
 
+// ---- authority set changes ("distinct CURRENT authority") --------------------------------------
+
+// c18EpochPlan describes successive authority sets of ONE Service and the commits handled in each epoch.
+// Sets hold indexes into a pool of candidate keys; Profiles[e] are the commit profiles of epoch e:
+//
+//	current      signed by members of the set that is current at delivery time (accepted iff > 2/3 of its n)
+//	former-set   every member of the PREVIOUS set signs validly for the NEW set id (only members that are
+//	             also in the current set count)
+//	mixed        k current members + every former-only authority sign; only the k count toward > 2/3 of the new n
+//	old-set-id   the current members sign over the previous set id and the message carries it
+type c18EpochPlan struct {
+	Sets     [][]int
+	Profiles [][]string
+	Fixed    bool
+}
+
+func c18GenEpochPlan(c *vcommon.Case, poolSize int) c18EpochPlan {
+	r := c.R
+	var plan c18EpochPlan
+	nEpochs := r.Range(2, 3)
+	first := r.Perm(poolSize)[:r.Range(1, 7)]
+	plan.Sets = append(plan.Sets, first)
+	for e := 1; e < nEpochs; e++ {
+		prev := plan.Sets[e-1]
+		in := map[int]bool{}
+		for _, m := range prev {
+			in[m] = true
+		}
+		keepPct := vcommon.Pick(r, []int{0, 0, 35, 65, 100})
+		var next []int
+		for _, m := range prev {
+			if r.Intn(100) < keepPct {
+				next = append(next, m)
+			}
+		}
+		kept := len(next)
+		add := r.Range(0, 4)
+		if kept == 0 && add == 0 {
+			add = r.Range(1, 4)
+		}
+		if kept == len(prev) && add == 0 {
+			add = 1 // the set must change
+		}
+		for _, m := range r.Perm(poolSize) {
+			if add == 0 || len(next) >= 9 {
+				break
+			}
+			if !in[m] {
+				next = append(next, m)
+				add--
+			}
+		}
+		if len(next) == 0 {
+			next = append(next, prev[0])
+		}
+		switch {
+		case kept == 0:
+			c.Count("set_changes_disjoint", 1)
+		case kept == len(prev):
+			c.Count("set_changes_superset", 1)
+		default:
+			c.Count("set_changes_overlapping", 1)
+		}
+		if len(next) != len(prev) {
+			c.Count("set_changes_size_differs", 1)
+		}
+		plan.Sets = append(plan.Sets, next)
+	}
+	for e := range plan.Sets {
+		var ps []string
+		if e == 0 {
+			for k := r.Range(1, 2); k > 0; k-- {
+				ps = append(ps, "current")
+			}
+		} else {
+			for k := r.Range(2, 4); k > 0; k-- {
+				ps = append(ps, vcommon.Pick(r, []string{"former-set", "former-set", "current", "current", "mixed", "old-set-id"}))
+			}
+		}
+		plan.Profiles = append(plan.Profiles, ps)
+	}
+	return plan
+}
+
+func c18RunEpochs(c *vcommon.Case, plan c18EpochPlan, keyTag uint64, tree *verifTree) {
+	r := c.R
+	const poolSize = 14
+	pool := verifKeypairs(keyTag, poolSize+2)
+	outsiders := pool[poolSize:]
+	keysOf := func(set []int) []*ed25519.Keypair {
+		out := make([]*ed25519.Keypair, len(set))
+		for i, m := range set {
+			out[i] = pool[m]
+		}
+		return out
+	}
+	node, err := verifNewNode(tree, keysOf(plan.Sets[0]), verifNodeOpts{Self: 0})
+	if err != nil {
+		c.Inconclusive("setup: " + err.Error())
+		return
+	}
+	defer node.Close()
+	everMember := map[int]bool{}
+	round := uint64(1)
+	for e, set := range plan.Sets {
+		setID := uint64(e) //nolint:gosec
+		if e > 0 {
+			// the authority set changes: the new set is stored, the set id incremented and the service opens
+			// its next round (initiateRound -> updateAuthorities), as after a finalised scheduled change
+			if err = node.Grandpa.GrandpaState.SetNextChange(verifVoters(keysOf(set)), tree.Number[node.FinalisedIndex()]); err != nil {
+				c.Inconclusive("SetNextChange: " + err.Error())
+				return
+			}
+			if _, err = node.Grandpa.GrandpaState.IncrementSetID(); err != nil {
+				c.Inconclusive("IncrementSetID: " + err.Error())
+				return
+			}
+			if err = node.Service.initiateRound(); err != nil {
+				c.Inconclusive("initiateRound after set change: " + err.Error())
+				return
+			}
+			if node.Service.state.setID != setID || len(node.Service.state.voters) != len(set) {
+				c.Inconclusive(fmt.Sprintf("set change not applied: service set id %d, %d voters", node.Service.state.setID, len(node.Service.state.voters)))
+				return
+			}
+			c.Count("set_changes", 1)
+			round = 1
+		} else if r.Bool() && !plan.Fixed {
+			if err = node.Service.initiateRound(); err != nil {
+				c.Inconclusive("initiateRound: " + err.Error())
+				return
+			}
+		}
+		// key list of this epoch: current set, then former-only authorities, then never-authorities
+		cur := map[int]bool{}
+		for _, m := range set {
+			cur[m] = true
+		}
+		keysE := keysOf(set)
+		var formerOnly []int // positions in keysE
+		pos := map[int]int{}
+		for i, m := range set {
+			pos[m] = i
+		}
+		for m := 0; m < poolSize; m++ {
+			if everMember[m] && !cur[m] {
+				pos[m] = len(keysE)
+				formerOnly = append(formerOnly, len(keysE))
+				keysE = append(keysE, pool[m])
+			}
+		}
+		isFormer := map[int]bool{}
+		for _, p := range formerOnly {
+			isFormer[p] = true
+		}
+		keysE = append(keysE, outsiders...)
+		node.Keys = keysE
+		n := len(set)
+		thr := 2 * n / 3
+		g := &c18Gen{tree: tree, keys: keysE, n: n, setID: setID, r: r}
+		for _, profile := range plan.Profiles[e] {
+			fin := node.FinalisedIndex()
+			if fin < 0 {
+				c.Inconclusive("finalised block not in tree")
+				return
+			}
+			tgt := vcommon.Pick(r, tree.Descendants(fin))
+			counting := vcommon.Pick(r, []int{thr, thr + 1, thr + 1, n})
+			if plan.Fixed {
+				counting = n
+			}
+			var cm *c18Commit
+			switch profile {
+			case "current":
+				noise := r.Range(0, 100)
+				if plan.Fixed {
+					noise = 0
+				}
+				cm = g.commit(tgt, round, counting, noise)
+			case "former-set":
+				cm = &c18Commit{Round: round, SetID: setID, Target: tree.Vote(tgt)}
+				for _, m := range plan.Sets[e-1] {
+					cm.Entries = append(cm.Entries, g.valid("valid", pos[m], g.supportVote(tgt), round))
+				}
+			case "mixed":
+				k := vcommon.Pick(r, []int{thr, thr, thr + 1, r.Intn(n + 1)})
+				cm = g.commit(tgt, round, k, 0)
+				for _, p := range formerOnly {
+					cm.Entries = append(cm.Entries, g.valid("valid", p, g.supportVote(tgt), round))
+				}
+				sh := r.Perm(len(cm.Entries))
+				ents := make([]c18Entry, len(cm.Entries))
+				for i, j := range sh {
+					ents[i] = cm.Entries[j]
+				}
+				cm.Entries = ents
+			case "old-set-id":
+				g2 := *g
+				g2.setID = setID - 1
+				cm = g2.commit(tgt, round, n, 0)
+				for i := range cm.Entries {
+					cm.Entries[i].Label = "wrong-set"
+				}
+			default:
+				panic("c18 epoch profile " + profile)
+			}
+			nFormer := 0
+			for i := range cm.Entries {
+				if isFormer[cm.Entries[i].Auth] {
+					cm.Entries[i].Label = "former-authority"
+					nFormer++
+				}
+			}
+			cm.Note = fmt.Sprintf("epoch %d (set id %d, sets %v) profile %s", e, setID, plan.Sets, profile)
+			c.Count("epoch_commits", 1)
+			c.Count("epoch_profile_"+profile, 1)
+			if e > 0 {
+				c.Count("commits_after_set_change", 1)
+				c.Count("former_authority_precommits_seen", nFormer)
+			}
+			acc := c18Deliver(c, node, n, setID, cm)
+			if e > 0 {
+				switch {
+				case profile == "current" && acc:
+					c.Count("current_set_commit_finalised_after_change", 1)
+				case profile == "former-set" && !acc:
+					c.Count("former_set_commit_not_finalised", 1)
+				case profile == "former-set" && acc:
+					c.Count("former_set_commit_finalised_by_overlap", 1) // legitimate: the overlap alone is > 2/3 of the new set
+				case profile == "old-set-id" && !acc:
+					c.Count("old_set_id_commit_not_finalised", 1)
+				}
+			}
+			round++
+		}
+		for _, m := range set {
+			everMember[m] = true
+		}
+	}
+}
+
+// c18EpochCorpus: the minimal witnesses of a stale authority key set after a set change.
+func c18EpochCorpus() []c18EpochPlan {
+	return []c18EpochPlan{
+		// 4 authorities, a commit is handled; the set becomes 3 other keys; the 4 former authorities sign a commit for set id 1
+		{Fixed: true, Sets: [][]int{{0, 1, 2, 3}, {4, 5, 6}}, Profiles: [][]string{{"current"}, {"former-set", "current"}}},
+		// overlapping: {0,1,2,3} -> {0,1,4,5,6,7}: the former set brings 2 of 6
+		{Fixed: true, Sets: [][]int{{0, 1, 2, 3}, {0, 1, 4, 5, 6, 7}}, Profiles: [][]string{{"current"}, {"former-set", "mixed", "current"}}},
+		// shrinking set and a second change back to a disjoint set
+		{Fixed: true, Sets: [][]int{{0, 1, 2, 3, 4, 5, 6}, {7}, {0, 1, 2}}, Profiles: [][]string{{"current"}, {"former-set", "old-set-id", "current"}, {"former-set", "current"}}},
+		// no activity before the change
+		{Fixed: true, Sets: [][]int{{0, 1}, {2, 3, 4}}, Profiles: [][]string{{}, {"former-set", "old-set-id", "current"}}},
+	}
+}
+
 func TestVerifC18(t *testing.T) {
 	r := vcommon.Start(t, "C18")
 	defer r.Finish()
@@ -700,4 +955,25 @@ func TestVerifC18(t *testing.T) {
 
 	r.Fixed("corpus", len(corpus), func(c *vcommon.Case) { c18RunFixed(c, corpus[c.Idx]) })
 	r.Cases("gen", r.Scale(1200), c18RunGenerated)
+
+	// authority set changes on one Service instance
+	r.Floor("set_changes", 300)
+	r.Floor("commits_after_set_change", 600)
+	r.Floor("former_authority_precommits_seen", 600)
+	r.Floor("commits_with_former-authority", 200)
+	r.Floor("current_set_commit_finalised_after_change", 100)
+	r.Floor("former_set_commit_not_finalised", 100)
+	r.Floor("old_set_id_commit_not_finalised", 30)
+	r.Floor("set_changes_disjoint", 50)
+	r.Floor("set_changes_overlapping", 50)
+	r.Floor("set_changes_size_differs", 100)
+	ec := c18EpochCorpus()
+	r.Fixed("epochs-corpus", len(ec), func(c *vcommon.Case) {
+		c18RunEpochs(c, ec[c.Idx], 1877, verifTreeFromParents([]int{-1, 0, 1, 2, 3, 1, 5, 4, 7}, 1818))
+	})
+	r.Cases("epochs", r.Scale(400), func(c *vcommon.Case) {
+		plan := c18GenEpochPlan(c, 14)
+		tree := verifGenTree(c.R, c.R.Range(5, 12), c.R.Range(10, 40), c.R.Uint64())
+		c18RunEpochs(c, plan, c.R.Uint64(), tree)
+	})
 }
